@@ -51,7 +51,7 @@ ASSUMPTIONS = [
     "only grid G6 (6 nodes, degree 2, log) and the five kinematic points central/smallx/thr/nf4/high (ZM-VFNS nf=3,4,5,6) plus the invalid-kinematics menu",
     "explicit rejection = ValueError or NotImplementedError whose innermost traceback frame is a literal `raise` statement (a ValueError escaping from list.index, float(), numpy etc. is an internal failure), or ModuleNotFoundError raised by the kind/process dispatch for polarised kinds with CC only",
     "pairs of axes that never meet inside one slice (e.g. TMC x NfFF 5, TMC x extra projectiles) are outside the bound",
-    "proton target, default EW parameters, unpolarised beam",
+    "proton target, default EW parameters, unpolarised beam except in slice S_options (three option combinations of target / polarisation / propagator correction / NCPositivityCharge); PTODIS != PTO only in S_ptodis; n3lo_cf_variation in {-1,1} only in S_n3lovar",
 ]
 BUDGET = {"quick": 1500, "thorough": 7200}
 
@@ -113,6 +113,28 @@ def slices(tier):
             _cell(k, h, p, canon[p], sc, pto, 0, kp)
             for k, h, p, sc, pto, kp in itertools.product(KINDS, HEAVY, PROCS, core_schemes, [0, 1, 2], ["smallx", "thr", "nf4", "high"])
         ]
+    # rarely used card options: DIS order different from the evolution order (the latter steers the asymptotic log towers),
+    # N3LO coefficient-function variations, and combinations of target / polarisation / propagator correction / positivity charge
+    s["S_ptodis"] = [
+        dict(_cell(k, h, p, canon[p], sc, pto_evol, 0, "central"), ptodis=ptodis)
+        for k, h, p, sc, pto_evol, ptodis in itertools.product(SF_KINDS, ["total", "charm"], PROCS, ["ZM-VFNS", "FFNS3", "FFN03", "FONLL-FFN04"], [0, 1, 2], [0, 1, 2, 3])
+        if ptodis != pto_evol and not (tier == "quick" and ptodis == 3 and sc != "FFN03")
+    ]
+    s["S_n3lovar"] = [
+        dict(_cell(k, h, p, canon[p], sc, 3, 0, "central"), n3lovar=var)
+        for k, h, p, sc, var in itertools.product(["F2", "FL", "g1", "XSHERANC"], ["total", "charm", "light"], ["EM", "NC"], ["ZM-VFNS", "FFNS3", "FFN03", "FONLL-FFN04", "FONLL-FFNS3"], [-1, 1])
+    ]
+    opts = [
+        {"TargetDIS": {"Z": 23.403, "A": 49.618}, "PolarizationDIS": -0.8, "PropagatorCorrection": 0.1},
+        {"TargetDIS": "neutron", "NCPositivityCharge": "strange"},
+        {"TargetDIS": "lead", "PolarizationDIS": 1.0, "NCPositivityCharge": "all"},
+    ]
+    s["S_options"] = [
+        dict(_cell(k, h, p, pr, sc, pto, tmc, "central"), opts=oi)
+        for k, h, p, sc, pto, tmc, oi in itertools.product(KINDS, ["total", "charm"], PROCS, ["ZM-VFNS", "FFNS3"], [0, 1] if tier == "quick" else [0, 1, 2, 3], [0, 1], range(len(opts)))
+        for pr in ([canon[p]] if tier == "quick" else [canon[p], "positron"])
+        if not (tier == "quick" and tmc == 1 and pto == 1 and k in XS_KINDS)
+    ]
     s["S_invalid"] = [
         _cell(k, "total", p, canon[p], "ZM-VFNS", 0, tmc, inv[0])
         for k, p, tmc, inv in itertools.product(KINDS, PROCS, [0, 1], INVALID_KIN)
@@ -167,16 +189,41 @@ def kin_of(cell):
     return k
 
 
+OPTS = [
+    {"TargetDIS": {"Z": 23.403, "A": 49.618}, "PolarizationDIS": -0.8, "PropagatorCorrection": 0.1},
+    {"TargetDIS": "neutron", "NCPositivityCharge": "strange"},
+    {"TargetDIS": "lead", "PolarizationDIS": 1.0, "NCPositivityCharge": "all"},
+]
+
+
+def _full_cell(cell):
+    c = dict(cell)
+    th = {}
+    if "ptodis" in cell:
+        th["PTODIS"] = cell["ptodis"]
+    if "n3lovar" in cell:
+        th["n3lo_cf_variation"] = cell["n3lovar"]
+    if th:
+        c["theory"] = th
+    if "opts" in cell:
+        c["obscard"] = dict(OPTS[cell["opts"]])
+    return c
+
+
 def execute(cell):
     yrun.reset_memos()
     name = cards.obsname(cell["kind"], cell["heavyness"])
     kin = kin_of(cell)
     invalid = cell["kin"] not in KIN
     fpbase = {k: cell[k] for k in ("kind", "heavyness", "process", "projectile", "scheme", "pto", "tmc", "kin")}
+    for extra in ("ptodis", "n3lovar", "opts"):
+        if extra in cell:
+            fpbase[extra] = cell[extra]
+    fpbase["dis_order"] = cell.get("ptodis", cell["pto"])  # PTODIS if given, else PTO
     fpbase["polarised"] = cell["kind"] in POLARISED
     fpbase["is_xs"] = cell["kind"] in XS_KINDS
     try:
-        out = yrun.run(cell, {name: [kin]})
+        out = yrun.run(_full_cell(cell), {name: [kin]})
     except (ValueError, NotImplementedError) as e:
         info = yrun.classify_exception(e)
         if not yrun.raised_explicitly(e):
